@@ -334,12 +334,113 @@ def register (s : St) (key party : Nat) : St :=
   | .ok => { s with regs := s.regs ++ [(key, party)] }
   | _ => s
 
+/-! ### crash points (C15)
+
+The hook `verif_crash_point(name)` makes the running operation stop with an error at a named point
+of `create_certificate`, of the artifact task, or of the buffered hand-over. `crashTick` is the tick
+cut at that point; the harness then drops the process state (`restart`). -/
+
+inductive CrashPoint where
+  | certBeforeInsert | certAfterInsert | certAfterUpdate
+  | artBeforeCompute | artAfterCompute | artAfterInsert
+  | hoBefore | hoBeforeRemoval | hoAfterRemoval
+deriving Repr, DecidableEq
+
+/-- `create_certificate` + artifact task cut at `p` (only called when `newCert` is `some c`) -/
+def createCertificateCut (s : St) (e : Nat) (c : CertRec) (p : CrashPoint) : St :=
+  let certified := updOm e (fun o => { o with certified := true }) s.oms
+  let ready : Rt := match s.rt with | .signing ep _ => .ready ep | r => r
+  match p with
+  | .certBeforeInsert => s
+  | .certAfterInsert => { s with certs := s.certs ++ [c] }
+  | .certAfterUpdate => { s with certs := s.certs ++ [c], oms := certified }
+  | .artBeforeCompute | .artAfterCompute => { s with certs := s.certs ++ [c], oms := certified, rt := ready }
+  | _ => { s with certs := s.certs ++ [c], oms := certified, ses := addSignedEntity s.ses e c.id, rt := ready }
+
+def signingStepCut (E : Env) (s : St) (tp : Tp) (ep e : Nat) (p : CrashPoint) : St :=
+  let oms1 := markExpired tp.now e s.oms
+  let s1 := { s with oms := oms1 }
+  let outdated := (match findOm e oms1 with | some o => o.expired | none => false) || !(tp.avail.contains e)
+  if ep < tp.epoch then { s1 with rt := .idle (some ep) }
+  else if outdated then { s1 with rt := .ready ep }
+  else match newCert E s1 e with
+    | some c => createCertificateCut s1 e c p
+    | none => s1
+
+/-- hand-over cut before the buffered rows are removed -/
+def handOverNoRemoval (E : Env) (s : St) (e : Nat) : St × Bool :=
+  match handOverGo s e (s.buf.filter (·.disc = E.entityDisc e)).reverse [] with
+  | (s1, some _) => (s1, false)
+  | (s1, none) => (s1, true)
+
+def readyStepCut (E : Env) (s : St) (tp : Tp) (p : CrashPoint) : St :=
+  match scan E tp tp.avail s.oms with
+  | (oms', some e) =>
+    let s1 : St := { s with oms := oms' }
+    if oms'.length = s.oms.length then { s1 with rt := .signing tp.epoch e }
+    else match p with
+      | .hoBefore => s1                                           -- open message stored, no hand-over, tick fails
+      | .hoBeforeRemoval => match handOverNoRemoval E s1 e with
+        | (s2, false) => { s2 with rt := .signing tp.epoch e }   -- the hand-over's error is only logged
+        | (s2, true) => s2
+      | _ => match handOver E s1 e with
+        | (s2, false) => { s2 with rt := .signing tp.epoch e }
+        | (s2, true) => s2
+  | (oms', none) => { s with oms := oms', rt := .ready tp.epoch }
+
+def crashTick (E : Env) (s : St) (tp : Tp) (p : CrashPoint) : St :=
+  match s.rt with
+  | .idle last => idleStep s tp last
+  | .blocked since _ => if since < tp.epoch then { s with rt := .idle (some since) } else s
+  | .ready ep => if ep < tp.epoch then { s with rt := .idle (some ep) } else readyStepCut E s tp p
+  | .signing ep e => signingStepCut E s tp ep e p
+
+/-- outcome of the cut tick: 0 ok, 1 error, 2 panic -/
+def crashTickOut (E : Env) (s : St) (tp : Tp) (p : CrashPoint) : Nat :=
+  match s.rt with
+  | .ready ep =>
+    if ep < tp.epoch then 0
+    else match scan E tp tp.avail s.oms with
+      | (oms', some e) =>
+        if oms'.length = s.oms.length then 0
+        else match p with
+          | .hoBefore => 1
+          | .hoBeforeRemoval => if (handOverNoRemoval E { s with oms := oms' } e).2 then 2 else 0
+          | _ => if (handOver E { s with oms := oms' } e).2 then 2 else 0
+      | _ => 0
+  | .signing ep e =>
+    let oms1 := markExpired tp.now e s.oms
+    let outdated := (match findOm e oms1 with | some o => o.expired | none => false) || !(tp.avail.contains e)
+    if ep < tp.epoch || outdated then 0
+    else match newCert E { s with oms := oms1 } e with
+      | none => 1
+      | some _ => match p with
+        | .certBeforeInsert | .certAfterInsert | .certAfterUpdate => 1
+        | _ => 0
+  | _ => tickOut E s tp
+
+/-- does the armed point fire in this tick? -/
+def crashFires (E : Env) (s : St) (tp : Tp) (p : CrashPoint) : Bool :=
+  match s.rt with
+  | .ready ep =>
+    !(ep < tp.epoch) && (match scan E tp tp.avail s.oms with
+      | (oms', some _) => oms'.length ≠ s.oms.length &&
+          (p == .hoBefore || p == .hoBeforeRemoval || p == .hoAfterRemoval)
+      | _ => false)
+  | .signing ep e =>
+    let oms1 := markExpired tp.now e s.oms
+    let outdated := (match findOm e oms1 with | some o => o.expired | none => false) || !(tp.avail.contains e)
+    !(ep < tp.epoch) && !outdated && (newCert E { s with oms := oms1 } e).isSome &&
+      !(p == .hoBefore || p == .hoBeforeRemoval || p == .hoAfterRemoval)
+  | _ => false
+
 inductive Event where
   | tick (tp : Tp)
   | signature (entity : Nat) (g : Sig)
   | register (key party : Nat)
   | expire (entity : Nat)
   | restart
+  | crash (tp : Tp) (p : CrashPoint)     -- a tick cut at an armed crash point, C15 (the process then restarts)
 
 def step (E : Env) (s : St) : Event → St
   | .tick tp => { tick E s tp with seen := tp.epoch }
@@ -347,6 +448,7 @@ def step (E : Env) (s : St) : Event → St
   | .register key party => register s key party
   | .expire e => { s with oms := updOm e (fun o => { o with expiresAt := some 0 }) s.oms }
   | .restart => { s with rt := .idle none, es := none, round := none }
+  | .crash tp p => { crashTick E s tp p with seen := tp.epoch }
 
 /-- state right after the genesis certificate of epoch `g` has been stored, with `n` fixture signers
 recorded under the keys `g-1` and `g` (`init_state_from_fixture_for_genesis`) -/
